@@ -627,6 +627,11 @@ func (g *Gen) heapSet(s *State, name string, srt Sort, term string) {
 
 // allocatedIn: references read from heap version ver existed when that version was created
 func (g *Gen) allocatedIn(st *State, ver string, ref string) string {
+	return sOr(sEq(ref, bv64(0)), sApp("bvult", objOf(ref), g.versionWM(st, ver)))
+}
+
+// versionWM: the allocation watermark at the time heap version ver was created
+func (g *Gen) versionWM(st *State, ver string) string {
 	wm, ok := g.verWM[ver]
 	if !ok {
 		if i := strings.LastIndex(ver, "@e"); i >= 0 {
@@ -639,7 +644,27 @@ func (g *Gen) allocatedIn(st *State, ver string, ref string) string {
 			wm = g.heapGet(st, allocHeap, allocSort)
 		}
 	}
-	return sOr(sEq(ref, bv64(0)), sApp("bvult", objOf(ref), wm))
+	return wm
+}
+
+// refFactsAt: what is known about references read through p from heap version ver: they existed when that
+// version was created - provided the location read existed then. A heap version says nothing about addresses
+// allocated after it was created: a callee that allocates and changes no existing location ("modifies
+// nothing", "ensures fresh(result)") leaves every heap version in place, and the fields of its new object
+// are read from those old versions.
+func (g *Gen) refFactsAt(st *State, ver string, p *SVal, v *SVal) string {
+	facts := g.refFactsVer(st, ver, v)
+	if facts == "true" || p == nil {
+		return facts
+	}
+	loc := p.Term
+	if p.Prov != nil && p.Prov.Kind == 2 && p.Prov.Base != "" {
+		loc = p.Prov.Base
+	}
+	if loc == "" {
+		return facts
+	}
+	return sImp(sApp("bvult", objOf(loc), g.versionWM(st, ver)), facts)
 }
 
 // refFactsVer: like refFacts but relative to the heap version the value was read from
